@@ -8,6 +8,7 @@ import (
 	"iter"
 	"math"
 	"sort"
+	"strconv"
 	"strings"
 
 	"verif/core"
@@ -83,18 +84,32 @@ type Format struct {
 	Gen     func(r *core.Rng, sz Size) Doc
 }
 
+// q renders a text field: quoted when short, by length and content hash when
+// long (semantic equality is preserved; quoting 64 KiB fields per item was the
+// dominant cost of executions on large inputs).
+func q[T ~string | ~[]byte](v T) string {
+	if len(v) <= 96 {
+		return strconv.Quote(string(v))
+	}
+	h := uint64(14695981039346656037)
+	for i := 0; i < len(v); i++ {
+		h = (h ^ uint64(v[i])) * 1099511628211
+	}
+	return fmt.Sprintf("<%d bytes, fnv %016x, starts %q>", len(v), h, string(v[:24]))
+}
+
 func fastaText(f *fasta.Fasta) string {
 	if f == nil {
 		return "<nil>"
 	}
-	return fmt.Sprintf("fasta{%q %q}", f.Name, f.Sequence)
+	return "fasta{" + q(f.Name) + " " + q(f.Sequence) + "}"
 }
 
 func fastqText(f *fastq.Fastq) string {
 	if f == nil {
 		return "<nil>"
 	}
-	return fmt.Sprintf("fastq{%q %q %q}", f.Name, f.Sequence, f.Quals)
+	return "fastq{" + q(f.Name) + " " + q(f.Sequence) + " " + q(f.Quals) + "}"
 }
 
 func tagText(v any) string {
@@ -111,7 +126,7 @@ func tagText(v any) string {
 	case int:
 		return fmt.Sprintf("i:%d", x)
 	case string:
-		return fmt.Sprintf("Z:%q", x)
+		return "Z:" + q(x)
 	}
 	return fmt.Sprintf("%T:%v", v, v)
 }
@@ -126,8 +141,8 @@ func samText(s *sam.SAM) string {
 	}
 	sort.Strings(keys)
 	var b strings.Builder
-	fmt.Fprintf(&b, "sam{%q %d %q %d %d %q %q %d %d %q %q", s.Qname, int(s.Flag), s.Rname, s.Pos, s.Mapq,
-		s.Cigar, s.Rnext, s.Pnext, s.Tlen, s.Seq, s.Qual)
+	fmt.Fprintf(&b, "sam{%s %d %s %d %d %s %s %d %d %s %s", q(s.Qname), int(s.Flag), q(s.Rname), s.Pos, s.Mapq,
+		q(s.Cigar), q(s.Rnext), s.Pnext, s.Tlen, q(s.Seq), q(s.Qual))
 	for _, k := range keys {
 		fmt.Fprintf(&b, " %q=%s", k, tagText(s.Tags[k]))
 	}
@@ -140,7 +155,7 @@ func samhText(sh sam.SAMOrHeader) string {
 	case sh.H != nil && sh.S != nil:
 		return fmt.Sprintf("both{%q %s}", *sh.H, samText(sh.S))
 	case sh.H != nil:
-		return fmt.Sprintf("header{%q}", *sh.H)
+		return "header{" + q(*sh.H) + "}"
 	case sh.S != nil:
 		return samText(sh.S)
 	}
@@ -151,8 +166,8 @@ func bedText(b *bed.BED) string {
 	if b == nil {
 		return "<nil>"
 	}
-	return fmt.Sprintf("bed{%d %q %d %d %q %d %q %d %d %v %d %v %v}", b.N, b.Chrom, b.ChromStart, b.ChromEnd,
-		b.Name, b.Score, b.Strand, b.ThickStart, b.ThickEnd, b.ItemRGB, b.BlockCount,
+	return fmt.Sprintf("bed{%d %s %d %d %s %d %s %d %d %v %d %v %v}", b.N, q(b.Chrom), b.ChromStart, b.ChromEnd,
+		q(b.Name), b.Score, q(b.Strand), b.ThickStart, b.ThickEnd, b.ItemRGB, b.BlockCount,
 		append([]int{}, b.BlockSizes...), append([]int{}, b.BlockStarts...))
 }
 
@@ -176,7 +191,7 @@ func NodeText(n *newick.Node) string {
 		if !math.IsNaN(n.Distance) {
 			d = fmt.Sprintf("%x", math.Float64bits(n.Distance))
 		}
-		fmt.Fprintf(&b, "(%q:%s", n.Name, d)
+		fmt.Fprintf(&b, "(%s:%s", q(n.Name), d)
 		for _, c := range n.Children {
 			b.WriteString(" ")
 			rec(c, depth+1)
